@@ -94,7 +94,13 @@ ARRS = [
     (['[%s|]' % nenc(1.0)], []),
     ([senc('a')], [('t', senc('x')), ('n', 'u')]),
     ([], [(senc('a'), nenc(1.0)), (senc('b'), nenc(2.0)), (senc('c'), nenc(3.0))]),
+    ([nenc(NAN)], []),                                   # an array is not equal to itself when it holds a NaN
+    ([nenc(1.0)], [(senc('k'), nenc(NAN))]),
+    (['[%s|]' % nenc(NAN)], []),
 ]
+
+SIZES = [7, 8, 9, 15, 16, 17, 31, 32, 33, 63, 64, 65, 71, 72, 73, 127, 128, 129, 255, 256, 257, 1023, 1024, 1025,
+         4095, 4096, 4097, 8191, 8192, 8193]
 
 
 def aenc(a):
